@@ -109,6 +109,75 @@ PROPS = {
         trusted_base=[GO_LIBS, "go-pfcp IE codecs", "fake BESS server (harness/internal/sysh/bess.go)", "loopback UDP/gRPC"],
         assumptions=["IPv4 only", "distinct live PDRs have distinct match keys", "an Update PDR/QER does not change the rule's table key"],
     ),
+    "C20": dict(
+        lean=["Upf.Props.C20"],
+        runner="py/c20_driver.py",
+        claim="Theorems for every event sequence (any length, any number of prefixes, next hops and interfaces, any initial neighbour "
+              "table) inside the envelope: the eleven-clause invariant Route.Inv holds after every RTM_NEWROUTE / RTM_DELROUTE / "
+              "RTM_NEWNEIGH (route_refines), hence: a route is in its interface's lookup table iff the kernel has it and its next hop's "
+              "MAC is known (installed_iff); RTM_NEWNEIGH installs every waiting route of that next hop and nothing the kernel dropped "
+              "(newneigh_installs_all, waiting_iff); routes through one next hop share one gate and one Update module (shared_gate, "
+              "same_nexthop_same_gate); the module exists iff an installed route uses it and the reference count is exact "
+              "(module_iff_used, refcount_exact); live next hops of one lookup module have distinct gates (gates_distinct); one table "
+              "entry per prefix (table_keys_unique). The model is the three handlers of conf/route_control.py with fix-C20.diff applied; "
+              "it is tied to the real file by replaying every recorded sequence: Route.step reproduces the module graph bessd holds "
+              "after every event exactly (gate numbers included), and the property itself is evaluated on that observed graph.",
+        note="Trusted: Lean kernel + standard axioms; the hand transcription of the three Python handlers (validated by the "
+             "correspondence run: every sequence of <= 5 events over the 3x3x2 universe plus long random ones); the fake bessd client "
+             "in py/c20_driver.py (module table, IPLookup tables keyed by prefix, one link per output gate, EEXIST/ENOENT/EBUSY as "
+             "bessd answers) standing in for pybess/bessd, and the scripted NDB standing in for pyroute2 (the NDB neighbour table "
+             "and the RTM_NEWNEIGH handler call are one atomic step). The real BessController retry wrappers run (SLEEP_S = 0), "
+             "but bessd never fails transiently here; the ping thread and SIGHUP reconfigure are outside the model.",
+        rule="real RouteController + real BessController driven with netlink-shaped messages through _netlink_route_handler / "
+             "_netlink_neighbor_handler; universe 3 prefixes (default route, /16, /24) x 3 next hops x 2 interfaces; one short sequence per handler path, then ALL event "
+             "sequences up to length 5 (thorough: 6) for the two interface maps that are distinct up to renaming (next hops on "
+             "access,access,core and all on access), no MAC known at start, respecting the kernel's discipline; plus random sequences "
+             "of length <= 40 (quick 600, thorough 60000) with random interface map, random initially known MACs and, in 40% of the "
+             "two-interface runs, one MAC shared by next hops on different interfaces; the module graph is recorded after EVERY "
+             "event; non-trivial = at some point a route is in a lookup table; distinct = distinct trace lines (hashed)",
+        trusted_base=["py/c20_driver.py: stub modules for pyroute2 / pybess / scapy, fake bessd client, scripted NDB",
+                      "CPython 3 standard library (ipaddress, dataclasses, logging)"],
+        assumptions=["each next hop address is on-link on exactly one managed interface (the neighbour cache is keyed by the next "
+                     "hop address alone; the authors' own test shares one entry across two interfaces)",
+                     "the kernel holds at most one route per (interface, prefix): the controller ignores RTA_PRIORITY / RTA_TABLE, "
+                     "and a lookup module can hold one entry per prefix",
+                     "next hops on one interface have distinct MACs (the Update module is named after interface and MAC)",
+                     "a MAC, once known, stays known and does not change (no RTM_DELNEIGH handling in the controller)",
+                     "fewer than MAX_GATES - 1 = 8191 next-hop activations per interface over the controller's lifetime "
+                     "(the gate counter is never decremented; the model's counter is unbounded)",
+                     "bessd accepts every well-formed command (no transient RPC failures)"],
+        technique="Lean 4 theorems over an executable model of the Python handlers; model tied to conf/route_control.py by trace "
+                  "acceptance (T2): the unmodified file is loaded with stub modules and driven against a fake bessd client",
+        timeout=dict(quick=600, thorough=7200),
+    ),
+    "C18": dict(
+        lean=["Upf.Props.C18"],
+        level="proof",
+        claim="Theorems for every document shape, every decoded configuration and every behaviour of the four library predicates: "
+              "a returned configuration has the documented defaults (2s / 5 / 15 / 5s; info and traffic class 3 when the document is silent), "
+              "every duration it uses parses, mode is one of the five BESS modes or empty with UP4 (access IP and UE pool parse), pool parses when "
+              "UE IP allocation is on, every peer parses; nothing valid is refused and a refusal names a failing check; the comment scanner "
+              "(equivalent to the regexp) returns exactly the text of every well-formed commented document, leaves comment-free text unchanged, "
+              "never lengthens its input. Tied by regenerated constants / regexp literal / valid modes / pre-decode defaults (T1) and by loading "
+              "generated documents with the real LoadConfigFile and removeComments (T2).",
+        note="Partial: JSON tokenising, the regexp engine and time.ParseDuration / net.ParseCIDR / net.ParseIP / zapcore.Level.UnmarshalText are "
+             "not modelled; the predicates are parameters of the theorems and Go's recorded verdicts instantiate them in the run. Documents with "
+             "comment markers inside strings and multi-line block comments are generated but only crash-freedom and validity of a returned "
+             "configuration are asserted, as the property says. The cndp_*.jsonc files under conf/ are CNDP library configurations, not inputs "
+             "of this loader (they are loaded, recorded, and must only not crash).",
+        rule="(a) documents generated from the Conf schema: every member of every field's value class (valid, boundary, invalid, null, wrong "
+             "JSON kind) on a valid BESS and a valid UP4 base, plus random combinations, in four layouts with schema noise and key-case variants; "
+             "(b) // and /* */ comments at every inter-token position of ~50 base documents (one at a time, two blocks on one line, block then "
+             "line, adjacent, several, every gap, bare at EOF); (c) removeComments vs the scanner on generated piece lists, marker soup, raw "
+             "bytes and the sample files; (d) random bytes, JSON soup, mutated documents, markers inside strings, multi-line block comments; "
+             "(e) the shipped *.jsonc files; Duration.String of the model against Go's. Non-trivial = got past JSON syntax (load/ins/fuzz), "
+             "contains a '/' (scanner).",
+        trusted_base=[GO_LIBS, "encoding/json, regexp, time.ParseDuration, net.ParseCIDR, net.ParseIP, zapcore.Level.UnmarshalText (exercised, not modelled)",
+                      "hook wrapper VerifRemoveComments in pfcpiface/verif_hooks.go"],
+        assumptions=["documents with comment markers inside string values or multi-line block comments are outside the 'comments are ignored' claim "
+                     "(the property text excludes them)"],
+        timeout=dict(quick=600, thorough=7200),
+    ),
 }
 
 NOT_APPLICABLE = {}
